@@ -25,7 +25,7 @@ def op_to_labels(op):
     if k == "OPEN":
         return "[LConnect %s]" % f[1]
     if k == "RESTART":
-        return "[LRestart]"
+        return "[LPersistTick; LRestart]"
     if k == "ADMIN":
         return "[]"
     c = f[1]
